@@ -491,7 +491,13 @@ impl TransferControl {
             // would otherwise spin forever. Clamp so the first
             // chunk always passes; the practical case
             // (chunk_size <= window_bytes) is unaffected.
-            if in_flight == 0 || in_flight + chunk_len <= guard.window_bytes {
+            // `checked_add`: with offsets near `u64::MAX` the sum can
+            // exceed 64 bits; that never fits the window.
+            if in_flight == 0
+                || in_flight
+                    .checked_add(chunk_len)
+                    .is_some_and(|n| n <= guard.window_bytes)
+            {
                 return Ok(());
             }
             let now = Instant::now();
